@@ -320,7 +320,8 @@ func ruleProvenance(c *Ctx, r *Report, rule string, m *emitModel) {
 		if k == "opPOPN#0" {
 			continue
 		}
-		for prov, pos := range seen[k] {
+		for _, prov := range sortedKeys(seen[k]) {
+			pos := seen[k][prov]
 			key := strings.TrimPrefix(k, "op") + "<-" + prov
 			if !ok {
 				r.bad(rule, key, "operand has no provenance rule", pos)
